@@ -140,6 +140,13 @@ def shared_function_programs():
     snap = IR.normalize_node(dict(name="snapshot", kind="func", inputs=["count"], outputs=["snap"], wait_for=["ready"], cache=True))
     for nodes in ([setup, inc, check, snap], [snap, check, inc, setup]):
         out.append((IR.prog("top", [copy.deepcopy(n) for n in nodes], max_iter=12), [["seed", "in.seed"], ["count", "in.count"]], "cached-waiter-in-loop"))
+    # a cached node whose signal was renamed after construction (with_outputs), with a waiter and a persistent cache
+    p1 = IR.normalize_node(dict(name="P", kind="func", inputs=["x"], outputs=["p", "ready"], ndata=1, cache=True, emit_renamed=True))
+    w1 = IR.normalize_node(dict(name="W", kind="func", inputs=["y"], outputs=["w"], wait_for=["ready"]))
+    out.append((IR.prog("top", [p1, w1]), [["x", "in.x"], ["y", "in.y"]], "renamed-signal-of-cached-node"))
+    # an argument with a reference cycle (a list that contains itself): cacheable like any other picklable value
+    out.append((IR.prog("top", [IR.func("A", ["x", "y"], ["p"], cache=True), IR.func("D", ["p"], ["d"], cache=True)]),
+                [["x", "~cyc"], ["y", "in.y"]], "self-referential-argument"))
     # same function, same outputs, same arguments in two graphs' worth of nodes: sharing an entry is fine
     a = IR.func("A", ["x"], ["p"], cache=True)
     out.append((IR.prog("top", [a, IR.func("D", ["p"], ["d"], cache=True)]), [["x", "in.x"]], "plain"))
@@ -193,6 +200,8 @@ def engine_programs(rng, n):
             if x["kind"] in ("func", "route", "ifelse") and rng.random() < 0.6:
                 x["cache"] = True
                 any_c = True
+            if x["kind"] == "func" and len(x["outputs"]) > x["ndata"] and rng.random() < 0.5:
+                x["emit_renamed"] = True       # the signal got its name through with_outputs()
         if not any_c:
             continue
         try:
